@@ -231,6 +231,8 @@ impl FeoxStore {
         self.ensure_ttl_write_supported()?;
         self.validate_key(key)?;
 
+        #[cfg(feoxdb_verif)]
+        crate::verif::yield_point("ttl.before_update");
         let (new_record, old_record, cache_guarded) = self
             .hash_table
             .update(key, |stored_key, current| {
@@ -289,6 +291,8 @@ impl FeoxStore {
             })
             .ok_or(FeoxError::KeyNotFound)??;
 
+        #[cfg(feoxdb_verif)]
+        crate::verif::yield_point("ttl.after_update");
         if !cache_guarded {
             self.remove_cached(key, &old_record);
         }
